@@ -241,12 +241,12 @@ pub fn gen_op(rng: &mut Rng, cfg: &Config, class: usize, out: &mut Vec<Op>) {
         }
         "roundtrip" => {
             let dst = if ns >= 2 && rng.chance(2, 3) { other(rng, slot) } else { slot };
-            out.push(Op::RoundTrip { src: slot, dst, enc: rng.below(4) as u8 });
+            out.push(Op::RoundTrip { src: slot, dst, enc: rng.below(crate::medium::NENC as u64) as u8 });
             if dst != slot && rng.chance(2, 3) {
                 out.push(Op::Lockstep { a: slot, b: dst, on: true });
             }
         }
-        "snapshot" => out.push(Op::Snapshot { slot, enc: rng.below(4) as u8 }),
+        "snapshot" => out.push(Op::Snapshot { slot, enc: rng.below(crate::medium::NENC as u64) as u8 }),
         "crash" => out.push(Op::Crash { slot }),
         "drop_world" => out.push(Op::DropWorld { slot }),
         "res_view" => out.push(Op::ResView {
@@ -352,7 +352,7 @@ pub fn gen_continuation(rng: &mut Rng, slot: u8, n: u64) -> Vec<Op> {
             3 => out.push(Op::Entry { slot, pick: pick_live(rng), steps: entry_steps(rng) }),
             4 => out.push(Op::Query { slot, q: rng.below(g::QUERIES.len() as u64) as u16, mode: 0, split: 0, salt: Some(rng.next_u64()) }),
             5 => out.push(Op::Shrink { slot }),
-            6 => out.push(Op::RoundTrip { src: slot, dst: slot, enc: rng.below(4) as u8 }),
+            6 => out.push(Op::RoundTrip { src: slot, dst: slot, enc: rng.below(crate::medium::NENC as u64) as u8 }),
             7 => out.push(Op::Clear { slot }),
             _ => out.push(Op::Remove { slot, pick: pick_dead(rng) }),
         }
